@@ -43,6 +43,8 @@ UFUNS.update({
     "fs_has": (["int", "int"], "bool"),   # key k occurs in the interned frozenset-of-items s
     "fs_at": (["int", "int"], "int"),     # ... and its value
     "groups_small": (["int"], "bool"),    # property quantifier: every group of mutually crossing stems has few (<= 30) stems
+    "srt": (["int", "int"], "int"),       # srt(c, t): the position, in component c, of its t-th stem in the order of the levels F
+    "srti": (["int", "int"], "int"),      # ... and the inverse
 })
 
 
@@ -84,8 +86,7 @@ def _comb_pos(e, args, kw, node, st):
 
 def _permutations(e, args, kw, node, st):
     """ASSUMED contract of itertools.permutations(L): a list of sequences, each of them L rearranged by a bijection of the
-    positions (src = the bijection, inv = its inverse).  (That every bijection occurs, each once, is the assumed lemma
-    permutations_complete - used by the completeness variant only.)"""
+    positions (src = the bijection, inv = its inverse), and every such rearrangement occurs."""
     from pyvc.values import Unsupported, VList, fresh, sel, to_z3, uid
     if len(args) != 1 or kw or not isinstance(args[0], VList) or args[0].elems is None or args[0].eshape != ("int",) or e.binders:
         raise Unsupported("itertools.permutations: only permutations(<list of int>) at statement level is modelled")
@@ -105,8 +106,24 @@ def _permutations(e, args, kw, node, st):
                                            z3.And(S(q, i) >= 0, S(q, i) < m, V(q, i) >= 0, V(q, i) < m,
                                                   z3.Select(row(q).elems, i) == z3.Select(comp.elems, S(q, i)),
                                                   S(q, V(q, i)) == i, V(q, S(q, i)) == i))))
-    e.last_perm = {"src": src, "inv": inv, "list": PS, "of": comp}
+    # every rearrangement occurs.  Stated for the rearrangements the sidecar can name: for every c such that srt(c, .) is a
+    # bijection of the positions (srti(c, .) its inverse), pos(c) is a position of [L[srt(c, 0)], L[srt(c, 1)], ..] in the
+    # result.  (That it occurs only once is not needed and not assumed.)
+    c = z3.Int(uid("c"))
+    srt, srti = e.ufuns["srt"], e.ufuns["srti"]
+    pos = z3.Function(uid("perm.pos"), z3.IntSort(), z3.IntSort())
+    bij = z3.ForAll([i], z3.Implies(z3.And(i >= 0, i < m), z3.And(srt(c, i) >= 0, srt(c, i) < m, srti(c, i) >= 0, srti(c, i) < m,
+                                                                  srt(c, srti(c, i)) == i, srti(c, srt(c, i)) == i)))
+    st.assume(z3.ForAll([c], z3.Implies(bij, z3.And(pos(c) >= 0, pos(c) < L, z3.ForAll([i], z3.Implies(
+        z3.And(i >= 0, i < m), z3.Select(row(pos(c)).elems, i) == z3.Select(comp.elems, srt(c, i)))))), patterns=[pos(c)]))
+    e.last_perm = {"src": src, "inv": inv, "list": PS, "of": comp, "pos": pos}
     return PS
+
+
+def _perm_pos(e, args, kw, node, st):
+    """spec view: the position, in the result of the permutations() call evaluated last, of the rearrangement srt(c, .)"""
+    from pyvc.values import to_z3
+    return e.last_perm["pos"](to_z3(args[0]))
 
 
 def _perm_src(e, args, kw, node, st):
@@ -121,7 +138,7 @@ def _perm_inv(e, args, kw, node, st):
 
 def _product(e, args, kw, node, st):
     """ASSUMED contract of itertools.product(*U) for a list U of sets: a list of sequences of length len(U) whose c-th
-    component is a member of U[c].  (That every such choice occurs is the assumed lemma product_complete.)"""
+    component is a member of U[c], and every such choice occurs."""
     from pyvc.calls import VStarArgs
     from pyvc.values import Unsupported, VList, VSet, fresh, sel, to_z3, uid
     if len(args) != 1 or kw or not isinstance(args[0], VStarArgs) or args[0].lst.eshape != ("set", ("int",)) or e.binders:
@@ -136,8 +153,19 @@ def _product(e, args, kw, node, st):
     st.assume(z3.ForAll([q], z3.Implies(z3.And(q >= 0, q < L), to_z3(row(q).length) == n)))
     st.assume(z3.ForAll([q, c], z3.Implies(z3.And(q >= 0, q < L, c >= 0, c < n),
                                            sel(sel(U.elems, c).mem, z3.Select(row(q).elems, c)))))
-    e.last_prod = {"list": PR, "of": U}
+    # every choice occurs: for a sequence g with g[c] in U[c] for all c, pos(g) is a position of g in the result
+    g = z3.Const(uid("g"), z3.ArraySort(z3.IntSort(), z3.IntSort()))
+    pos = z3.Function(uid("prod.pos"), g.sort(), z3.IntSort())
+    choice = z3.ForAll([c], z3.Implies(z3.And(c >= 0, c < n), sel(sel(U.elems, c).mem, g[c])))
+    st.assume(z3.ForAll([g], z3.Implies(choice, z3.And(pos(g) >= 0, pos(g) < L, z3.ForAll([c], z3.Implies(
+        z3.And(c >= 0, c < n), z3.Select(row(pos(g)).elems, c) == g[c])))), patterns=[pos(g)]))
+    e.last_prod = {"list": PR, "of": U, "pos": pos}
     return PR
+
+
+def _prod_pos(e, args, kw, node, st):
+    """spec view: the position of the sequence g (a list) in the result of the product() call evaluated last"""
+    return e.last_prod["pos"](args[0].elems)
 
 
 def _frozenset(e, args, kw, node, st):
@@ -193,9 +221,9 @@ EXTERNALS = {
     "itertools.product": _product,
     "builtins.frozenset": _frozenset,
     "dict.update": _dict_update,
-    "spec.comb_pos": _comb_pos, "spec.perm_src": _perm_src, "spec.perm_inv": _perm_inv, "spec.plain": _plain, "spec.last_fs": _last_fs,
+    "spec.comb_pos": _comb_pos, "spec.perm_src": _perm_src, "spec.perm_inv": _perm_inv, "spec.plain": _plain, "spec.last_fs": _last_fs, "spec.perm_pos": _perm_pos, "spec.prod_pos": _prod_pos,
 }
-SPEC_EXTERNALS = {"comb_pos": "spec.comb_pos", "perm_src": "spec.perm_src", "perm_inv": "spec.perm_inv", "plain": "spec.plain", "last_fs": "spec.last_fs"}
+SPEC_EXTERNALS = {"comb_pos": "spec.comb_pos", "perm_src": "spec.perm_src", "perm_inv": "spec.perm_inv", "plain": "spec.plain", "last_fs": "spec.last_fs", "perm_pos": "spec.perm_pos", "prod_pos": "spec.prod_pos"}
 
 
 # ------------------------------------------------------------------------------------------------ vocabulary
@@ -227,7 +255,8 @@ def graph_complete_upto(G, R, c):
 @spec
 def graph_complete(G, R):
     """j in graph[i] whenever stems i and j cross"""
-    return forall(lambda a, b: implies(0 <= a and a < len(R) and 0 <= b and b < len(R) and cross(R, a, b), a in G and b in G[a]))
+    return forall(lambda a, b: implies(0 <= a and a < len(R) and 0 <= b and b < len(R) and cross(R, a, b), a in G and b in G[a]),
+                  pats=[["R[a][0]", "R[b][0]"]])
 
 
 @spec
@@ -284,7 +313,25 @@ def greedy_stable(R, O):
                                        exists(lambda b: 0 <= b and b < len(R) and cross(R, a, b) and O[b] == l)), pats=["tg(a, l)"])
 
 
+@spec
+def sorted_by(p, F):
+    """the levels F are non-decreasing along the sequence p of stems"""
+    return forall(lambda b, d: implies(0 <= b and b < d and d < len(p), F[p[b]] <= F[p[d]]))
+
+
+@spec
+def agree(s, F, c, G, CI):
+    """the recorded assignment s gives every stem of component c its level in F"""
+    return forall(lambda x: implies(x in G and CI[x] == c, fs_at(s, x) == F[x]))
+
+
 LEMMAS.update({
+    # every finite list can be sorted by a key: srt(c, .) rearranges the positions of component c so that the levels F do not
+    # decrease.  ASSUMED (mathematical fact; srt / srti are otherwise unconstrained symbols, one pair per component).
+    "sorted_rearrangement": {"kind": "definition", "params": ["C", "F", "c"],
+                             "ensures": ["forall(lambda t: implies(0 <= t and t < len(C), 0 <= srt(c, t) and srt(c, t) < len(C) and 0 <= srti(c, t) "
+                                         "and srti(c, t) < len(C) and srt(c, srti(c, t)) == t and srti(c, srt(c, t)) == t))",
+                                         "forall(lambda t, u: implies(0 <= t and t < u and u < len(C), F[C[srt(c, t)]] <= F[C[srt(c, u)]]))"]},
     # property quantifier ("groups of mutually crossing stems have at most 8 stems"), in the form the proof consumes: the
     # component lists - proved duplicate-free lists of stems of one group - have at most 30 entries.  ASSUMED (cardinality /
     # pigeonhole step from "at most 8 stems in a group" to "a duplicate-free list of them has at most 8 entries").
@@ -325,26 +372,54 @@ DFS = [
     "forall(lambda q: implies(0 <= q and q < v1, visited[vertices[q]]))",
 ]
 
+STACK = [  # while-loop of the DFS (the component being built is the last one)
+    "len(components) >= 1 and vertex in GR and visited[vertex]",
+    # closure of the finished components and of the finished (popped) vertices of the current one
+    "forall(lambda x, y: implies(x in GR and visited[x] and y in GR[x] and (CI[x] < len(components) - 1 or DN[x] == 1), "
+    "visited[y] and CI[y] == CI[x]))",
+    # the stack holds distinct vertices of the current component, among them every unfinished one (SP = its ghost position)
+    "len(stack) >= 0",
+    # (explicit triggers: the two clauses below would otherwise instantiate each other for ever)
+    "forall(lambda t: implies(0 <= t and t < len(stack), stack[t] in GR and visited[stack[t]] and "
+    "CI[stack[t]] == len(components) - 1), pats=['stack[t]'])",
+    "forall(lambda t, u: implies(0 <= t and t < u and u < len(stack), stack[t] != stack[u]))",
+    "forall(lambda x: implies(x in GR and visited[x] and CI[x] == len(components) - 1 and DN[x] != 1, "
+    "0 <= SP[x] and SP[x] < len(stack) and stack[SP[x]] == x), pats=['SP[x]', 'DN[x]'])"]
+
 PERM = [  # loop 6/7: the graph is only read, the levels dict has exactly the component's stems as keys
     "same_graph(graph, GR)",
     "forall(lambda x: (x in orders) == (x in GR and CI[x] == c4))",
 ]
 
 # what the later parts of the function need to know about the earlier ones (kept across the proof cuts)
+BASE_G = ["graph_sound(GR, regions)", "GC(0)"]  # GC(0) == graph_complete(GR, regions), opaque (revealed where a proof needs it)
 BASE = ["valid(self.entries)", "regions_match(self.entries, regions)", "regions_cover(self.entries, regions, GS)",
         "levels30(self)", "groups_small(self)",
-        "graph_sound(GR, regions)", "graph_complete(GR, regions)", "same_graph(graph, GR)"]
+        "graph_sound(GR, regions)", "GC(0)", "same_graph(graph, GR)"]
 COMPS = ["not knot_free(regions)", "len(components) >= 0", "comps_ok(components, GR, CI, CP)",
          "forall(lambda c: implies(0 <= c and c < len(components), len(components[c]) <= 30))"]
 
 
 UNIQUE_GOOD = "forall(lambda c, s: implies(0 <= c and c <= c4 and s in unique[c], good(s, c)))"
+# completeness (F is an arbitrary proper greedy-stable assignment, hypothesis HF(0)): the restriction of F to every finished
+# component c is recorded in unique[c] (ghost witness SFL[c]); for the current component it is recorded once the permutation
+# sorted by F (position perm_pos(c4) in the enumeration) has been processed (ghost witness SF)
+FOUND = "implies(HF(0), forall(lambda c: implies(0 <= c and c < c4, SFL[c] in unique[c] and agree(SFL[c], F, c, GR, CI))))"
+FOUND5 = "implies(HF(0) and perm_pos(c4) < q5, SF in unique[c4] and agree(SF, F, c4, GR, CI))"
+PERMFACTS = [  # the permutation being processed is a bijection between its positions and the stems of component c4 (PP = position)
+    "len(permutation) == len(components[c4])",
+    "forall(lambda x: implies(x in GR and CI[x] == c4, 0 <= PP[x] and PP[x] < len(permutation) and permutation[PP[x]] == x))",
+    "forall(lambda b: implies(0 <= b and b < len(permutation), permutation[b] in GR and CI[permutation[b]] == c4 and PP[permutation[b]] == b))"]
 LEVELS = [  # the levels dict of one permutation, once all of it is processed: proper and greedy-stable on the component
     "forall(lambda x: (x in orders) == (x in GR and CI[x] == c4))",
     "forall(lambda x: implies(x in GR and CI[x] == c4, 0 <= orders[x] and orders[x] < len(components[c4])))",
     "forall(lambda x, y: implies(x in GR and CI[x] == c4 and y in GR[x], orders[x] != orders[y]))",
     "forall(lambda x, l: implies(tg(x, l) and x in GR and CI[x] == c4 and 0 <= l and l < orders[x], "
     "exists(lambda y: y in GR[x] and orders[y] == l)), pats=['tg(x, l)'])"]
+
+
+LOOP5 = ["0 <= c4 and c4 < len(components)", "len(unique) == c4 + 1", UNIQUE_GOOD, "len(SFL) == c4", FOUND, FOUND5,
+         "implies(q5 == perm_pos(c4), SRT(0))"]
 
 
 class all_dot_brackets:
@@ -354,10 +429,18 @@ class all_dot_brackets:
     requires = ["valid(self.entries)", "levels30(self)", "groups_small(self)"]
     returns = "list[DotBracket]"
     ensures = ["forall(lambda q: implies(0 <= q and q < len(result), member_ok(self.entries, result[q])))",
-               "implies(knot_free(regions), len(result) == 1)"]
-    ensures_labels = {0: "every-member-lossless", 1: "single-notation-when-pseudoknot-free"}
+               "implies(knot_free(regions), len(result) == 1)",
+               "implies(not knot_free(regions) and proper(regions, F) and greedy_stable(regions, F), "
+               "exists(lambda q: 0 <= q and q < len(result) and painted(result[q].structure, regions, F, len(regions))))"]
+    ensures_labels = {0: "every-member-lossless", 1: "single-notation-when-pseudoknot-free",
+                      2: "every-proper-greedy-stable-assignment-is-a-member"}
+    ghost_exit = ["forall u | reveal HF | assert HF(0) == (proper(regions, F) and greedy_stable(regions, F))",
+                  "forall u | reveal GC | assert graph_complete(GR, regions)"]
     raises = []
     modifies = []
+    # completeness is stated for an ARBITRARY level assignment F (a ghost parameter: nothing is required of it; the
+    # clauses about it have the hypothesis HF(0) = "F is proper and greedy-stable on the stems of this structure")
+    ghost_params = {"F": "list[int]"}
     callee_variants = {"BpSeq.__make_dot_bracket": "dict"}
     defaultdicts = ["graph"]
     ghost_entry = ["define tg(x, l) = True"]  # a trigger term for clauses quantifying over (stem, level); identically True
@@ -376,19 +459,7 @@ class all_dot_brackets:
         # connected components (DFS)
         1: {"index": "v1", "inv": DFS + [
             "forall(lambda x, y: implies(x in GR and visited[x] and y in GR[x], visited[y] and CI[y] == CI[x]))"]},
-        2: {"inv": DFS + [
-            "len(components) >= 1 and vertex in GR and visited[vertex]",
-            # closure of the finished components and of the finished (popped) vertices of the current one
-            "forall(lambda x, y: implies(x in GR and visited[x] and y in GR[x] and (CI[x] < len(components) - 1 or DN[x] == 1), "
-            "visited[y] and CI[y] == CI[x]))",
-            # the stack holds distinct vertices of the current component, among them every unfinished one (SP = its ghost position)
-            "len(stack) >= 0",
-            # (explicit triggers: the two clauses below would otherwise instantiate each other for ever)
-            "forall(lambda t: implies(0 <= t and t < len(stack), stack[t] in GR and visited[stack[t]] and "
-            "CI[stack[t]] == len(components) - 1), pats=['stack[t]'])",
-            "forall(lambda t, u: implies(0 <= t and t < u and u < len(stack), stack[t] != stack[u]))",
-            "forall(lambda x: implies(x in GR and visited[x] and CI[x] == len(components) - 1 and DN[x] != 1, "
-            "0 <= SP[x] and SP[x] < len(stack) and stack[SP[x]] == x), pats=['SP[x]', 'DN[x]'])"]},
+        2: {"inv": DFS + STACK},
         3: {"index": "q3", "seq": "EN", "inv": [
             "is_none(next_vertex)",
             "forall(lambda t: implies(0 <= t and t < q3, visited[EN[t]]))"]},
@@ -396,11 +467,13 @@ class all_dot_brackets:
         4: {"index": "c4", "inv": [
             "same_graph(graph, GR)",
             "len(unique) == c4",
-            "forall(lambda c, s: implies(0 <= c and c < c4 and s in unique[c], good(s, c)))"]},
-        5: {"index": "q5", "inv": [
+            "forall(lambda c, s: implies(0 <= c and c < c4 and s in unique[c], good(s, c)))",
+            "len(SFL) == c4", FOUND]},
+        5: {"index": "q5", "iter": "PS", "inv": [
             "same_graph(graph, GR)",
             "len(unique) == c4 + 1",
-            UNIQUE_GOOD]},
+            UNIQUE_GOOD,
+            "len(SFL) == c4", FOUND, FOUND5]},
         6: {"inv": PERM + [
             "1 <= M and M <= i and len(WW) == i",
             "forall(lambda b: implies(0 <= b and b < i and b < len(permutation), 0 <= orders[permutation[b]] and orders[permutation[b]] < M))",
@@ -410,7 +483,9 @@ class all_dot_brackets:
             "orders[permutation[a]] != orders[permutation[b]]))",
             # greedy: every lower level is taken by an earlier neighbour (ghost witness WW[a][l] = its position)
             "forall(lambda a, l: implies(1 <= a and a < i and a < len(permutation) and 0 <= l and l < orders[permutation[a]], "
-            "0 <= WW[a][l] and WW[a][l] < a and permutation[WW[a][l]] in GR[permutation[a]] and orders[permutation[WW[a][l]]] == l))"]},
+            "0 <= WW[a][l] and WW[a][l] < a and permutation[WW[a][l]] in GR[permutation[a]] and orders[permutation[WW[a][l]]] == l))",
+            # completeness: a permutation sorted by a proper greedy-stable assignment F replays F
+            "implies(HF(0) and SRT(0), forall(lambda b: implies(0 <= b and b < i and b < len(permutation), orders[permutation[b]] == F[permutation[b]])))"]},
         7: {"inv": [
             "same_graph(graph, GR)",
             "len(available) == len(component)",
@@ -420,8 +495,10 @@ class all_dot_brackets:
             "forall(lambda lv: implies(0 <= lv and lv < len(available) and not available[lv], 0 <= WT[lv] and WT[lv] < j "
             "and permutation[WT[lv]] in GR[permutation[i]] and orders[permutation[WT[lv]]] == lv))"]},
         # cartesian product across components
-        8: {"index": "q8", "inv": [
-            "forall(lambda d: implies(d in solutions, member_ok(self.entries, d)), sorts={'d': 'DotBracket'})"]},
+        8: {"index": "q8", "iter": "PRD", "inv": [
+            "forall(lambda d: implies(d in solutions, member_ok(self.entries, d)), sorts={'d': 'DotBracket'})",
+            # completeness: once the choice (SFL[0], SFL[1], ..) has been processed, the painting of F is in the set (ghost DB)
+            "implies(HF(0) and prod_pos(SFL) < q8, DB in solutions and painted(DB.structure, regions, F, len(regions)))"]},
         9: {"index": "c9", "inv": [
             "forall(lambda a: (a in orders) == (0 <= a and a < len(regions)))",
             "forall(lambda a: implies(a in GR and CI[a] < c9, orders[a] == fs_at(assignment[CI[a]], a)))",
@@ -430,7 +507,8 @@ class all_dot_brackets:
     ghost = [
         {"when": "after", "at": "regions = self.__regions", "label": "R",
          "do": ["let R = regions", "let GS = __regions_GS", "let NB = fill(len(regions), 0 - 1)",
-                "let VP = fill(len(regions), 0 - 1)", "let WI = True"]},
+                "let VP = fill(len(regions), 0 - 1)", "let WI = True",
+                "define opaque HF(u) = proper(regions, F) and greedy_stable(regions, F)"]},
         {"when": "before", "at": "graph[i].add(j)", "label": "WIi", "do": ["let WI = i in graph"]},
         {"when": "after", "at": "graph[i].add(j)", "label": "NBi",
          "do": ["let NB = upd(NB, i, j)", "let VP = ite(WI, VP, upd(VP, i, len(graph) - 1))"]},
@@ -439,6 +517,7 @@ class all_dot_brackets:
          "do": ["let NB = upd(NB, j, i)", "let VP = ite(WI, VP, upd(VP, j, len(graph) - 1))"]},
         {"when": "after", "at": "vertices = list(graph.keys())", "label": "conflict-graph",
          "do": ["let GR = plain(graph)", "assert graph_sound(GR, R)", "assert graph_complete(GR, R)",
+                "define opaque GC(u) = graph_complete(GR, regions)", "forall u | reveal GC | assert GC(0)",
                 # proof cut: from here on only the facts below are known (small solver contexts)
                 "cut " + " and ".join(BASE + [
                     "len(vertices) >= 0",
@@ -457,13 +536,24 @@ class all_dot_brackets:
          "do": ["let CI = upd(CI, next_vertex, len(components) - 1)",
                 "let CP = upd(CP, next_vertex, len(components[len(components) - 1]) - 1)",
                 "let DN = upd(DN, next_vertex, 0)", "let SP = upd(SP, next_vertex, len(stack) - 1)"]},
+        {"when": "before", "at": "stack.pop()", "label": "vertex-finished",
+         "do": ["assert forall(lambda y: implies(y in GR[current], visited[y]))",
+                # proof cut: the set enumeration of the neighbour scan is no longer needed
+                "cut " + " and ".join(BASE_G + DFS + STACK + ["len(stack) > 0", "current == stack[len(stack) - 1]", "0 <= v1 and v1 < len(vertices)",
+                                                             "vertex == vertices[v1]", "forall(lambda y: implies(y in GR[current], visited[y]))"])]},
         {"when": "after", "at": "stack.pop()", "label": "finish", "do": ["let DN = upd(DN, current, 1)"]},
         {"when": "after", "at": "while stack:", "label": "component-finished",
          "do": ["forall x | assert implies(x in GR and visited[x] and CI[x] == len(components) - 1, DN[x] == 1)"]},
         {"when": "before", "at": "unique = []", "label": "components",
          "do": ["assert comps_ok(components, GR, CI, CP)", "use groups_small_definition(self, components)",
                 "cut " + " and ".join(BASE + COMPS),
-                "define good(s, c) = fs_good(s, c, GR, CI, components)"]},
+                "define good(s, c) = fs_good(s, c, GR, CI, components)",
+                "let SFL = fill(0, 0)", "let SF = 0 - 1"]},
+        {"when": "after", "at": "unique.append(set())", "label": "sorted-order",
+         "do": ["use sorted_rearrangement(component, F, c4)", "let SF = 0 - 1"]},
+        {"when": "after", "at": "for permutation in itertools.permutations(component)", "label": "sorted-permutation-was-enumerated",
+         "do": ["assert 0 <= perm_pos(c4) and perm_pos(c4) < len(PS)",
+                "let SFL = snoc(SFL, SF)"]},
         # the permutation as a bijection between positions and the component's stems (PP = position of a stem)
         {"when": "before", "at": "orders = {region: 0 for region in component}", "label": "permutation",
          "do": ["let PP = [perm_inv(q5, CP[x]) for x in range(len(regions))]",
@@ -476,6 +566,38 @@ class all_dot_brackets:
                 "forall b | assert implies(0 <= b and b < len(permutation), permutation[b] == component[perm_src(q5, b)] and "
                 "CP[permutation[b]] == perm_src(q5, b)) | assert implies(0 <= b and b < len(permutation), permutation[b] in GR "
                 "and CI[permutation[b]] == c4 and PP[permutation[b]] == b)"]},
+        {"when": "before", "at": "orders = {region: 0 for region in component}", "label": "sorted",
+         "do": ["define opaque SRT(u) = sorted_by(permutation, F)",
+                "forall t | assert implies(q5 == perm_pos(c4) and 0 <= t and t < len(permutation), permutation[t] == component[srt(c4, t)])",
+                "forall u | reveal SRT | assert implies(q5 == perm_pos(c4), SRT(0))",
+                # proof cut: the loop nest below knows the permutation only as the bijection PP just established
+                "cut " + " and ".join(BASE + COMPS + PERMFACTS + LOOP5)]},
+        {"when": "after", "at": "order = next(", "label": "next-is-f",
+         "do": ["assert tg(permutation[i], order)",
+                # a neighbour on a lower F-level comes earlier in the sorted permutation, so its level is already F's
+                "forall y | reveal SRT | assert implies(HF(0) and SRT(0) and y in GR[permutation[i]] and F[y] < F[permutation[i]], "
+                "y in GR and CI[y] == c4 and permutation[PP[y]] == y and PP[y] != i and 0 <= PP[y] and PP[y] < len(permutation))"
+                " | assert implies(HF(0) and SRT(0) and y in GR[permutation[i]] and F[y] < F[permutation[i]], PP[y] < i and "
+                "permutation[PP[y]] == y and orders[permutation[PP[y]]] == F[y])",
+                # not below F: the level `order` would be taken by such a neighbour (F is greedy-stable), but it is available
+                "forall y | reveal GC | assert implies(0 <= y and y < len(regions) and cross(regions, permutation[i], y), y in GR[permutation[i]])"
+                " | assert implies(HF(0) and SRT(0) and 0 <= y and y < len(regions) and cross(regions, permutation[i], y) "
+                "and order < F[permutation[i]], F[y] != order)",
+                "forall u | reveal HF | assert implies(HF(0) and SRT(0), not (order < F[permutation[i]]))",
+                # not above F: the level F[..] is unavailable only through an earlier neighbour on it, which F (proper) excludes
+                "forall u | reveal HF | assert implies(HF(0) and SRT(0) and F[permutation[i]] < order, 0 <= F[permutation[i]] and not available[F[permutation[i]]] "
+                "and F[permutation[WT[F[permutation[i]]]]] == F[permutation[i]] and cross(regions, permutation[i], permutation[WT[F[permutation[i]]]]))"
+                " | assert implies(HF(0) and SRT(0), not (order > F[permutation[i]]))",
+                "assert implies(HF(0) and SRT(0), order == F[permutation[i]])"]},
+        {"when": "after", "at": "orders = {region: 0 for region in component}", "label": "first-is-zero",
+         "do": ["assert tg(permutation[0], 0)",
+                "forall y | reveal SRT | assert implies(HF(0) and SRT(0) and y in GR and CI[y] == c4, permutation[PP[y]] == y and 0 <= PP[y] and PP[y] < len(permutation))"
+                " | assert implies(HF(0) and SRT(0) and y in GR and CI[y] == c4, F[permutation[0]] <= F[y])",
+                "assert 0 < len(permutation) and permutation[0] in GR and CI[permutation[0]] == c4 and 0 <= permutation[0] and permutation[0] < len(regions)",
+                "forall y | reveal GC | assert implies(0 <= y and y < len(regions) and cross(regions, permutation[0], y), y in GR[permutation[0]])"
+                " | assert implies(0 <= y and y < len(regions) and cross(regions, permutation[0], y), y in GR and CI[y] == c4)"
+                " | assert implies(HF(0) and SRT(0) and 0 <= y and y < len(regions) and cross(regions, permutation[0], y), F[permutation[0]] <= F[y])",
+                "forall u | reveal HF | assert implies(HF(0) and SRT(0), F[permutation[0]] == 0)"]},
         {"when": "after", "at": "orders = {region: 0 for region in component}", "label": "M0",
          "do": ["let M = 1", "let WT = fill(0, 0)", "let WW = snoc(empty('list[list[int]]'), fill(0, 0))"]},
         {"when": "after", "at": "available = [", "label": "WT0", "do": ["let WT = fill(len(component), 0 - 1)"]},
@@ -485,18 +607,27 @@ class all_dot_brackets:
          "do": ["assert M < len(available) and available[M]"]},
         {"when": "after", "at": "orders[permutation[i]] = order", "label": "M",
          "do": ["let M = ite(order + 1 > M, order + 1, M)", "let WW = snoc(WW, WT)"]},
+        {"when": "before", "at": "unique[-1].add(", "label": "sorted-permutation-replays-f",
+         "do": ["forall x | assert implies(HF(0) and SRT(0) and x in GR and CI[x] == c4, orders[x] == F[x])"]},
         {"when": "before", "at": "unique[-1].add(", "label": "assignment-of-component",
          "do": ["forall x | assert implies(x in GR and CI[x] == c4, 0 <= orders[x] and orders[x] < len(component))",
                 "forall x, y | assert implies(x in GR and CI[x] == c4 and y in GR[x], orders[x] != orders[y])",
                 "forall x, l | assert implies(x in GR and CI[x] == c4 and 0 <= l and l < orders[x], "
                 "permutation[WW[PP[x]][l]] in GR[x] and orders[permutation[WW[PP[x]][l]]] == l)"
                 " | assert implies(tg(x, l) and x in GR and CI[x] == c4 and 0 <= l and l < orders[x], exists(lambda y: y in GR[x] and orders[y] == l))",
-                "cut " + " and ".join(BASE + COMPS + ["0 <= c4 and c4 < len(components)", "len(unique) == c4 + 1", UNIQUE_GOOD] + LEVELS)]},
+                "cut " + " and ".join(BASE + COMPS + LOOP5 + LEVELS + [
+                    "forall(lambda x: implies(HF(0) and SRT(0) and x in GR and CI[x] == c4, orders[x] == F[x]))"])]},
         {"when": "after", "at": "unique[-1].add(", "label": "recorded-assignment-is-proper-and-greedy-stable",
-         "do": ["assert fs_good(last_fs(), c4, GR, CI, components)", "assert good(last_fs(), c4)"]},
+         "do": ["assert fs_good(last_fs(), c4, GR, CI, components)", "assert good(last_fs(), c4)",
+                "let SF = ite(q5 == perm_pos(c4), last_fs(), SF)"]},
         {"when": "before", "at": "solutions = set()", "label": "unique",
-         "do": ["cut " + " and ".join(BASE + COMPS + ["len(unique) == len(components)",
-                                                      "forall(lambda c, s: implies(0 <= c and c < len(components) and s in unique[c], good(s, c)))"])]},
+         "do": ["cut " + " and ".join(BASE + COMPS + ["len(unique) == len(components)", "len(SFL) == len(components)",
+                                                      "forall(lambda c, s: implies(0 <= c and c < len(components) and s in unique[c], good(s, c)))",
+                                                      "implies(HF(0), forall(lambda c: implies(0 <= c and c < len(components), "
+                                                      "SFL[c] in unique[c] and agree(SFL[c], F, c, GR, CI))))"]),
+                "let DB = ref(DotBracket, 0)"]},
+        {"when": "after", "at": "for assignment in itertools.product(*unique)", "label": "assembled-choice-was-enumerated",
+         "do": ["assert implies(HF(0), 0 <= prod_pos(SFL) and prod_pos(SFL) < len(PRD))"]},
         {"when": "before", "at": "solutions.add(", "label": "assembled-assignment-is-proper-and-greedy-stable",
          "do": ["forall a | assert implies(a in GR, 0 <= CI[a] and CI[a] < len(assignment) and assignment[CI[a]] in unique[CI[a]] "
                 "and good(assignment[CI[a]], CI[a]))"
@@ -504,13 +635,24 @@ class all_dot_brackets:
                 "forall a | assert implies(a in GR, orders[a] == fs_at(assignment[CI[a]], a))",
                 "forall a | assert implies(0 <= a and a < len(regions) and not (a in GR), orders[a] == 0)",
                 "forall a | assert implies(0 <= a and a < len(regions), 0 <= orders[a] and orders[a] < 30)",
-                "forall a, b | assert implies(0 <= a and a < len(regions) and 0 <= b and b < len(regions) and cross(regions, a, b), "
+                "forall a, b | reveal GC | assert implies(0 <= a and a < len(regions) and 0 <= b and b < len(regions) and cross(regions, a, b), "
                 "a in GR and b in GR[a] and CI[a] == CI[b]) | assert implies(0 <= a and a < len(regions) and 0 <= b and b < len(regions) "
                 "and cross(regions, a, b), orders[a] != orders[b])",
                 "assert proper(regions, orders)",
                 "forall a, l | assert implies(tg(a, l) and 0 <= a and a < len(regions) and 0 <= l and l < orders[a], "
                 "exists(lambda b: 0 <= b and b < len(regions) and cross(regions, a, b) and orders[b] == l))",
-                "assert greedy_stable(regions, orders)"]},
+                "assert greedy_stable(regions, orders)",
+                # completeness: the choice (SFL[0], SFL[1], ..) assembles F itself
+                "forall a | assert implies(HF(0) and q8 == prod_pos(SFL) and a in GR, assignment[CI[a]] == SFL[CI[a]])"
+                " | assert implies(HF(0) and q8 == prod_pos(SFL) and a in GR, orders[a] == F[a])",
+                "forall a | assert tg(a, 0) | reveal HF | reveal GC | assert implies(HF(0) and 0 <= a and a < len(regions) and not (a in GR), F[a] == 0)",
+                "forall a | assert implies(HF(0) and q8 == prod_pos(SFL) and 0 <= a and a < len(regions), orders[a] == F[a])"]},
+        {"when": "after", "at": "solutions.add(", "label": "painting-of-f",
+         "do": ["let r = __make_dot_bracket_result", "let G = __make_dot_bracket_G",
+                "forall a, x | assert implies(HF(0) and q8 == prod_pos(SFL) and 0 <= a and a < len(regions) and on_strand(regions, a, x) "
+                "and 0 <= x and x < len(r.structure), G[x] == a and orders[a] == F[a])",
+                "assert implies(HF(0) and q8 == prod_pos(SFL), painted(r.structure, regions, F, len(regions)))",
+                "let DB = ite(q8 == prod_pos(SFL), r, DB)"]},
     ]
 
 
